@@ -321,6 +321,23 @@ def check_transforms(run):
             O.fail('C01.transforms_before_matching', {'transform_case': [desc, fld], 'rules_text': text2}, exp, c, 'normalize_merchant(..., transforms=...)')
 
 
+def check_list_valued_tags(run):
+    """a dynamic tag whose expression yields a list (a comprehension over a supplemental source): one tag per non-empty element, stripped and lower-cased;
+    empty and blank elements are dropped like an empty scalar value is (C02)"""
+    O = run.O
+    text = ('[Amazon]\nmatch: contains("AAA")\ncategory: Shopping\ntags: base, {[r.kind for r in orders if r.amount == txn.amount]}, {field.kind}\n')
+    for kinds, fld_kind, exp in (((' Book ', ' '), 'Wire', {'base', 'book', 'wire'}), (('', 'Pen', '   '), '  ', {'base', 'pen'}), ((), 'x', {'base', 'x'}),
+                                 (('\t', 'A B'), '', {'base', 'a b'})):
+        rows = [{'amount': 10.0, 'kind': k} for k in kinds] + [{'amount': 99.0, 'kind': 'Other'}]
+        O.case(('list_tags', kinds, fld_kind))
+        for mode in ('first_match', 'most_specific'):
+            res = parse_merchants(text, mode).match({'description': 'AAA STORE', 'amount': 10.0, 'date': date(2025, 3, 5), 'field': {'kind': fld_kind}, 'source': 'Amex'},
+                                                    data_sources={'orders': rows})
+            if set(res.tags) != exp:
+                O.fail('C02.list_valued_dynamic_tag', {'list_tag_case': [list(kinds), fld_kind], 'mode': mode, 'rules_text': text}, sorted(exp), sorted(res.tags),
+                       'parse_merchants(text, mode).match(txn, data_sources={orders: rows})')
+
+
 def run(prop):
     O = Oracle()
 
@@ -333,6 +350,8 @@ def run(prop):
                     r.check(w['rules'], w['txn'], w['mode'])
                 elif 'csv_rules' in w:
                     check_csv(r, w['csv_rules'], w['txn'])
+                elif 'list_tag_case' in w:
+                    check_list_valued_tags(r)
                 else:
                     check_transforms(r)
                 O.finish()
@@ -355,6 +374,8 @@ def run(prop):
                     for idxs in itertools.permutations(range(len(CSV_POOL)), n):
                         for ti in range(len(TXNS)):
                             check_csv(r, list(idxs), ti)
+            if prop == 'C02':
+                check_list_valued_tags(r)
             if prop == 'C01':
                 check_transforms(r)
                 r.finish_unknown()
